@@ -9,6 +9,7 @@ mod oal;
 mod props;
 mod refsem;
 mod tape;
+mod validate;
 
 use engine::*;
 use std::path::PathBuf;
